@@ -108,6 +108,41 @@ def _unused():
                 samples=samples, dump=r)
 
 
+def long_histories(ctx):
+    """the undo log far beyond the depth TLC explores: one command of 1500 sub-edits, and 1100 commands undone one by one.
+    The expectation is the property itself: every undo gives back the text before the command, every redo the text after it."""
+    import subprocess
+    from editor import run_vi
+    n = 1500
+    orig = ["line %d" % i for i in range(n)]
+    s1 = "a\n" + "\n".join(orig) + "\n.\nw! o0\n%s/^/x/\nw! o1\nu\nw! o2\nredo\nw! o3\nu\nw! o4\nq!\n"
+    want1 = {"o0": orig, "o1": ["x" + l for l in orig], "o2": orig, "o3": ["x" + l for l in orig], "o4": orig}
+    m = 1100
+    s2 = "a\nr1\nr2\nr3\nr4\nr5\n.\n1,5s/^/y/\n" + "".join("%ds/$/%s/\n" % (1 + i % 5, "abcdefghij"[i % 10]) for i in range(m)) + \
+         "w! p0\n" + "u\n" * m + "w! p1\n" + "u\nw! p2\n" + "redo\n" * (m + 1) + "w! p3\nq!\n"
+    rows = ["y" + r for r in ("r1", "r2", "r3", "r4", "r5")]
+    fin = list(rows)
+    for i in range(m):
+        fin[i % 5] += "abcdefghij"[i % 10]
+    want2 = {"p0": fin, "p1": rows, "p2": ["r1", "r2", "r3", "r4", "r5"], "p3": fin}
+    bad = 0
+    for name, script, want in (("one command of 1500 sub-edits", s1, want1), ("1100 commands undone one by one", s2, want2)):
+        recs, rc, err, to, work = run_vi(ctx, ["-s", "-e"], script.encode(), timeout=120, trace=False)
+        for f, lines in want.items():
+            p = os.path.join(work, f)
+            have = open(p).read().split("\n")[:-1] if os.path.exists(p) else None
+            if have != lines or rc != 0:
+                bad += 1
+                k = next((i for i, (a, b) in enumerate(zip(have or [], lines)) if a != b), -1)
+                ctx.violation("long undo history (%s): the text written as %s differs from the text the undo / redo must restore "
+                              "(first differing line %d: %r instead of %r; rc %s)" %
+                              (name, f, k + 1, (have or [None] * (k + 1))[k] if have is not None and k >= 0 else have and len(have), lines[k] if k >= 0 else len(lines), rc),
+                              {"scenario": name, "file": f, "first_difference_line": k + 1, "script_head": script[:300]}, {"kind": "long-history", "file": f})
+                break
+        shutil.rmtree(work, True)
+    return {"long_history_scenarios": 2, "long_history_bad": bad}
+
+
 def main(ctx, args):
     mc_scope, walk_scope = SCOPES[ctx.tier]
     mc = tlc_model(ctx, "MC_Lbuf", cfg(ctx, "mc.cfg", mc_scope, False), timeout=3000, heap="16g")
@@ -118,7 +153,9 @@ def main(ctx, args):
         ed = editor.undo_traces(ctx)
     except ImportError:
         ctx.notes.append("editor-level undo traces not built yet")
+    ed.update(long_histories(ctx))
     cov = {
+        "long_histories": {k: ed[k] for k in ("long_history_scenarios", "long_history_bad")},
         "states": mc["distinct"], "transitions": mc["generated"],
         "traces_validated_against_impl": w["transitions"] + ed.get("traces", 0),
         "samples": w["samples"] + ed.get("samples", []),
